@@ -14,9 +14,15 @@
 (*               processed synchronously by the channel, then the reader   *)
 (*               tasks that were woken run in wake-up order;               *)
 (*   StartCall   the application starts read / readexactly / readuntil /   *)
-(*               readline / wait on an idle stream and runs it until it    *)
-(*               returns or blocks;                                        *)
+(*               readline on an idle stream and runs it until it returns   *)
+(*               or blocks; StartWait / StartCollect: process.wait() and   *)
+(*               process.collect_output();                                 *)
 (*   Redirect    the application redirects a stream to a target.           *)
+(*                                                                         *)
+(* ResumeFix / CollectFix = TRUE model the code after the two repairs      *)
+(* found with this module (fixes/c19_readuntil_resume.patch,               *)
+(* fixes/c19_collect_output_resume.patch); FALSE is the code before them   *)
+(* and must violate ChunkIndependent / NothingLost.                        *)
 (*                                                                         *)
 (* The code is modelled as a pure state transformer on the record c, so    *)
 (* that the same operators drive the exhaustive check, the simulation and  *)
